@@ -172,6 +172,11 @@ func (k Keeper) splitFeesCollected(
 	daoAllocation := sdk.NewDec(k.DAOAllocation(ctx))
 	proposerAllocation := sdk.NewDec(k.ProposerAllocation(ctx))
 
+	// both allocations may legitimately be set to zero; the collected transaction fees then all go to the proposer
+	if daoAllocation.Add(proposerAllocation).IsZero() {
+		return sdk.ZeroInt(), feesCollected
+	}
+
 	// get the new percentages of `dao / (dao + proposer)`
 	daoAllocation = daoAllocation.Quo(daoAllocation.Add(proposerAllocation))
 
